@@ -265,7 +265,7 @@ def load(perm_seed: int | None = None) -> types.ModuleType:
     sys.modules[MODULE_NAME] = mod
     src = emit_source(perm_seed)
     mod.__source__ = src  # type: ignore[attr-defined]
-    exec(compile(src, mod.__file__, "exec"), mod.__dict__)
+    exec(compile(src, mod.__file__, "exec", dont_inherit=True), mod.__dict__)
     return mod
 
 
